@@ -8,6 +8,7 @@ block, every event and every event data; sequences are covered by induction.
 -/
 import EdzedModel.Fsm
 import EdzedProofs.Fsm
+import EdzedProofs.FsmTie03
 import EdzedModel.Gen.Constants
 
 namespace Edzed.Fsm
@@ -535,3 +536,394 @@ example :
   decide
 
 end Edzed.Fsm
+
+/-! ## Tie by translation
+
+`FSM._ctx_event` is translated from the CURRENT Python source on every check into the program
+`Gen.TrM.ctxEvent` (lean/EdzedModel/Gen/TranslatedFsm.lean, generator tools/py2lean_fsm.py -- the same generated
+program that C04 ties to its timer model): statement order, conditions, early returns, raises, `try/finally`,
+the `for … else` loop with `continue`/`break` and the arguments of every call come from the AST; each call or
+lookup the method makes is a field of `FsmPrims`.  `F03.prims d` (EdzedProofs/FsmTie03.lean) instantiates these
+fields with the operations of THIS model (`tget`, `condsOf`/`condLog`, `exitLog`, `runCbs`, `nested`,
+`calcOutput`, `setOutput`, …) over the block `F03.TS` = (`Fsm`, the context variable `fsm_event_data`, the log so
+far, `_enable_event`).  The callbacks read the event data from the context variable, which only the translated
+program sets; the model passes the data explicitly.  The theorems say that the translated method computes
+exactly the model's `ctxEvent` (event from outside) and `nested` (recursive call while `_fsm_event_active`):
+same block afterwards, same ordered log with the same data read by every action, same return value / exception
+class.  A semantic edit of the method changes the generated program and these theorems stop compiling. -/
+
+namespace Edzed.TrTie
+open Edzed.Fsm Edzed.Gen.TrM F03
+
+/-- the recursive call (`self.event()` from an entry action or from `_start_timer` of a zero-duration state,
+    `_fsm_event_active` set): the translated method = the model's `nested` — unknown event, missing state,
+    table lookup with the specific rule first and no fall-through of a stored None, on_notrans, conditions only
+    when initialised (all of them, reading the data of THIS call), Goto with `_check_state`, the multiplication
+    error and the posting of `_next_event` -/
+theorem translated_fsm03_post_is_model (d : Def) (t : TS) (e : EType) (data : Data)
+    (ha : t.f.active = true) :
+    view (Gen.TrM.ctxEvent (prims d) e data t) =
+      ((nested d t.f e data).1, t.log ++ (nested d t.f e data).2.2, flowOf (nested d t.f e data).2.1) := by
+  obtain ⟨f, ctx, log, en⟩ := t
+  simp only at ha
+  cases e with
+  | goto q =>
+    unfold Gen.TrM.ctxEvent ctxEventBody
+    by_cases hq : q ∈ d.states <;> cases hn : f.next <;>
+      t3simp [view, nested, check, flowOf, hq, ha, hn]
+  | ev n =>
+    unfold Gen.TrM.ctxEvent ctxEventBody
+    by_cases hev : n ∈ d.events
+    rotate_left
+    · t3simp [view, nested, check, flowOf, hev, ha]
+    · cases hst : f.state with
+      | none => t3simp [view, nested, check, flowOf, hev, ha, hst]
+      | some cur =>
+        have fin : ∀ (o : Option State), lookup d.toTables n cur = o →
+            ((tget d.trans n (some cur) = some o ∧ True) ∨
+              (tget d.trans n (some cur) = none ∧ (tget d.trans n none).getD none = o)) := by
+          intro o ho
+          unfold lookup at ho
+          cases h1 : tget d.trans n (some cur) with
+          | some x => rw [h1] at ho; exact .inl ⟨by rw [← ho], trivial⟩
+          | none =>
+            rw [h1] at ho
+            refine .inr ⟨rfl, ?_⟩
+            cases h0 : tget d.trans n none with
+            | some x => rw [h0] at ho; simpa using ho
+            | none => rw [h0] at ho; simpa using ho
+        cases ho : lookup d.toTables n cur with
+        | none =>
+          rcases fin _ ho with ⟨h1, h0⟩ | ⟨h1, h0⟩ <;>
+            t3simp [view, nested, check, flowOf, hev, ha, hst, h1, h0, ho]
+        | some q =>
+          cases hu : f.output.isUndef with
+          | true =>
+            rcases fin _ ho with ⟨h1, h0⟩ | ⟨h1, h0⟩ <;> cases hn : f.next <;>
+              t3simp [view, nested, check, flowOf, hev, ha, hst, h1, h0, ho, hu, hn]
+          | false =>
+            by_cases hall : (condsOf d n).all (fun c => (c.2.eval data).truthy) = true <;>
+              rcases fin _ ho with ⟨h1, h0⟩ | ⟨h1, h0⟩ <;> cases hn : f.next <;>
+              t3simp [view, nested, check, flowOf, hev, ha, hst, h1, h0, ho, hu, hn, hall]
+
+
+/-- one pass of the translated loop body = the model's `iter`: unpacking of `_next_event` (context variable set
+    to the chained event's data BEFORE the exit action of the intermediate state), state assignment, entry
+    action, `continue`, timer start, `continue` / `break`, exceptions -/
+theorem translated_fsm03_round (d : Def) (t : TS) (loc : Loc EType Data State) (cur : Req)
+    (hen : t.enabled = false)
+    (hq : t.f.next = none → loc.v3 = some cur.target ∧ loc.v1 = cur.data ∧ t.ctx = cur.data) :
+    (ctxEventLoop0 (prims d) (t, loc)).1.1.f = (iter d t.f cur).1 ∧
+    (ctxEventLoop0 (prims d) (t, loc)).1.1.log = t.log ++ (iter d t.f cur).2.2.2 ∧
+    (ctxEventLoop0 (prims d) (t, loc)).1.1.enabled = false ∧
+    RoundEnds (iter d t.f cur).2.2.1 (ctxEventLoop0 (prims d) (t, loc)).2 ∧
+    (ctxEventLoop0 (prims d) (t, loc)).1.2.v1 = (iter d t.f cur).2.1.data ∧
+    (ctxEventLoop0 (prims d) (t, loc)).1.2.v3 = some (iter d t.f cur).2.1.target ∧
+    (ctxEventLoop0 (prims d) (t, loc)).1.1.ctx = (iter d t.f cur).2.1.data := by
+  obtain ⟨⟨st, out, act, nx⟩, ctx, log, en⟩ := t
+  simp only at hen hq
+  subst hen
+  unfold ctxEventLoop0
+  cases nx with
+  | none =>
+    obtain ⟨h3, h1, hc⟩ := hq rfl
+    obtain ⟨v0, v1, v2, v3⟩ := loc
+    simp only at h3 h1
+    subst h3 h1 hc
+    t3simp [iter, enterState, unpack, unpackLog]
+    round_tail03 d (runCbs d cur.target cur.data { state := some cur.target, output := out, active := act } (entersOf d cur.target)) cur.target
+  | some x =>
+    obtain ⟨e', d', q'⟩ := x
+    cases st with
+    | none =>
+      t3simp [iter, enterState, unpack, unpackLog]
+      round_tail03 d (runCbs d q' d' { state := some q', output := out, active := act } (entersOf d q')) q'
+    | some s0 =>
+      t3simp [iter, enterState, unpack, unpackLog]
+      round_tail03 d (runCbs d q' d' { state := some q', output := out, active := act } (entersOf d q')) q'
+
+
+/-- the translated `for _ in range(self._ct_chainlimit): … else: raise …` = the model's `loop`, by induction
+    on the count -/
+theorem translated_fsm03_loop (d : Def) : ∀ (n : Nat) (t : TS) (loc : Loc EType Data State) (cur : Req),
+    t.enabled = false →
+    (t.f.next = none → loc.v3 = some cur.target ∧ loc.v1 = cur.data ∧ t.ctx = cur.data) →
+    (forRange (ctxEventLoop0 (prims d)) (Gen.TrM.raise ((prims d).exc "EdzedCircuitError")) n (t, loc)).1.1.f
+      = (loop d n t.f cur).1 ∧
+    (forRange (ctxEventLoop0 (prims d)) (Gen.TrM.raise ((prims d).exc "EdzedCircuitError")) n (t, loc)).1.1.log
+      = t.log ++ (loop d n t.f cur).2.2 ∧
+    (forRange (ctxEventLoop0 (prims d)) (Gen.TrM.raise ((prims d).exc "EdzedCircuitError")) n (t, loc)).1.1.enabled
+      = false ∧
+    LoopEnds (loop d n t.f cur).2.1
+      (forRange (ctxEventLoop0 (prims d)) (Gen.TrM.raise ((prims d).exc "EdzedCircuitError")) n (t, loc)).2 := by
+  intro n
+  induction n with
+  | zero =>
+    intro t loc cur hen _
+    simp [forRange, Gen.TrM.raise, loop, LoopEnds, prims_exc, excOf, excOfRes, hen]
+  | succ n ih =>
+    intro t loc cur hen hq
+    obtain ⟨h1, h2, h3, h4, h5, h6, h7⟩ := translated_fsm03_round d t loc cur hen hq
+    unfold forRange loop
+    generalize ctxEventLoop0 (prims d) (t, loc) = R at h1 h2 h3 h4 h5 h6 h7 ⊢
+    generalize iter d t.f cur = I at h1 h2 h4 h5 h6 h7 ⊢
+    obtain ⟨⟨t1, loc1⟩, fl⟩ := R
+    obtain ⟨f1, cur', st, l⟩ := I
+    simp only at h1 h2 h3 h4 h5 h6 h7
+    cases st with
+    | fail r =>
+      simp only [RoundEnds] at h4
+      subst h4
+      simp [h1, h2, h3, LoopEnds]
+    | done =>
+      simp only [RoundEnds] at h4
+      subst h4
+      simp [h1, h2, h3, LoopEnds]
+    | again =>
+      simp only [RoundEnds] at h4
+      subst h4
+      obtain ⟨i1, i2, i3, i4⟩ := ih t1 loc1 cur' h3 (fun _ => ⟨h6, h5, h7⟩)
+      simp only
+      rw [h1] at i1 i2 i4
+      refine ⟨i1, ?_, i3, i4⟩
+      rw [i2, h2, List.append_assoc]
+
+
+/-- the `try:` block of `_ctx_event` (exit action, on_exit, timer stop, assertion, chain loop, output,
+    on_enter) = the model's `leaveLog` followed by `transition`, up to the `finally:` clause -/
+theorem translated_fsm03_try (d : Def) (f : Fsm) (e : EType) (data : Data) (tgt : State)
+    (log0 : List Action) (loc : Loc EType Data State) (hv3 : loc.v3 = some tgt) (hv1 : loc.v1 = data)
+    (hn : f.next = none) (hinit : f.output.isUndef = false → f.state ≠ none) :
+    { (ctxEventTry0 (prims d) (⟨{ f with active := true }, data, log0, false⟩, loc)).1.1.f with active := false }
+      = (transition d f e data tgt).1 ∧
+    (ctxEventTry0 (prims d) (⟨{ f with active := true }, data, log0, false⟩, loc)).1.1.log
+      = log0 ++ leaveLog d f data ++ (transition d f e data tgt).2.2 ∧
+    (ctxEventTry0 (prims d) (⟨{ f with active := true }, data, log0, false⟩, loc)).2
+      = flowOf (transition d f e data tgt).2.1 := by
+  unfold ctxEventTry0
+  -- exit action, on_exit events, `_stop_timer()`
+  rw [seq_next (sl1 := (⟨{ f with active := true }, data, log0 ++ leaveLog d f data, false⟩, loc))]
+  rotate_left
+  · cases hu : f.output.isUndef with
+    | true => cases hs : f.state <;> t3simp [leaveLog, hu, hs]
+    | false =>
+      cases hs : f.state with
+      | none => exact absurd hs (hinit hu)
+      | some s0 => t3simp [leaveLog, hu, hs]
+  -- `assert self._next_event is None`
+  rw [seq_next (sl1 := (⟨{ f with active := true }, data, log0 ++ leaveLog d f data, false⟩, loc))]
+  rotate_left
+  · t3simp [hn]
+  -- the chain loop
+  obtain ⟨i1, i2, i3, i4⟩ := translated_fsm03_loop d d.chainLimit
+    ⟨{ f with active := true }, data, log0 ++ leaveLog d f data, false⟩ loc ⟨e, data, tgt⟩ rfl
+    (fun _ => ⟨hv3, hv1, rfl⟩)
+  have hp := loop_props d d.chainLimit { f with active := true } ⟨e, data, tgt⟩
+  have hforN : ∀ (body orelse : Stmt (TS × Loc EType Data State) Exc Bool),
+      forN (fun sl => (prims d).chainLimit sl.1) body orelse
+        (⟨{ f with active := true }, data, log0 ++ leaveLog d f data, false⟩, loc)
+      = forRange body orelse d.chainLimit
+        (⟨{ f with active := true }, data, log0 ++ leaveLog d f data, false⟩, loc) := fun _ _ => rfl
+  unfold transition
+  simp only at i1 i2 i3 i4
+  generalize hR : forRange (ctxEventLoop0 (prims d)) (Gen.TrM.raise ((prims d).exc "EdzedCircuitError"))
+    d.chainLimit (⟨{ f with active := true }, data, log0 ++ leaveLog d f data, false⟩, loc) = R at i1 i2 i3 i4
+  generalize loop d d.chainLimit { f with active := true } ⟨e, data, tgt⟩ = M at i1 i2 i4 hp ⊢
+  obtain ⟨⟨⟨f1, ctx1, log1, en1⟩, loc1⟩, fl⟩ := R
+  obtain ⟨fm, rm, lm⟩ := M
+  simp only at i1 i2 i3 i4 hp
+  subst i1 i2 i3
+  cases rm with
+  | some r =>
+    simp only [LoopEnds] at i4
+    subst i4
+    rw [seq_stop (sl1 := (⟨f1, ctx1, _, false⟩, loc1)) (f := Flow.raise (excOfRes r))
+      (by rw [hforN]; exact hR) (by simp)]
+    simp [flowOf_error r (hp.2.2.2 r rfl)]
+  | none =>
+    simp only [LoopEnds] at i4
+    subst i4
+    rw [seq_next (sl1 := (⟨f1, ctx1, _, false⟩, loc1)) (by rw [hforN]; exact hR)]
+    obtain ⟨hnx, hst⟩ := hp.2.2.1 rfl
+    cases hs : f1.state with
+    | none => rw [hs] at hst; cases hst
+    | some s =>
+      have hk := setOutput_keeps f1 (Fsm.calcOutput d s)
+      cases hu : (Fsm.calcOutput d s).isUndef with
+      | true =>
+        have : Fsm.setOutput f1 (Fsm.calcOutput d s) = (f1, []) := by simp [Fsm.setOutput, hu]
+        t3simp [hs, hu, this, flowOf]
+      | false => t3simp [hs, hu, hk.1, flowOf]
+
+
+/-- … and with a stale `_next_event` (left behind by an exception inside an entry action): the assertion
+    after the exit action fails -/
+theorem translated_fsm03_try_stale (d : Def) (f : Fsm) (data : Data) (x : Req)
+    (log0 : List Action) (loc : Loc EType Data State)
+    (hn : f.next = some x) (hinit : f.output.isUndef = false → f.state ≠ none) :
+    (ctxEventTry0 (prims d) (⟨{ f with active := true }, data, log0, false⟩, loc)).1.1.f
+      = { f with active := true } ∧
+    (ctxEventTry0 (prims d) (⟨{ f with active := true }, data, log0, false⟩, loc)).1.1.log
+      = log0 ++ leaveLog d f data ∧
+    (ctxEventTry0 (prims d) (⟨{ f with active := true }, data, log0, false⟩, loc)).2
+      = Flow.raise Exc.assertion := by
+  unfold ctxEventTry0
+  rw [seq_next (sl1 := (⟨{ f with active := true }, data, log0 ++ leaveLog d f data, false⟩, loc))]
+  rotate_left
+  · cases hu : f.output.isUndef with
+    | true => cases hs : f.state <;> t3simp [leaveLog, hu, hs]
+    | false =>
+      cases hs : f.state with
+      | none => exact absurd hs (hinit hu)
+      | some s0 => t3simp [leaveLog, hu, hs]
+  rw [seq_stop (sl1 := (⟨{ f with active := true }, data, log0 ++ leaveLog d f data, false⟩, loc))
+    (f := Flow.raise Exc.assertion) (by t3simp [hn]) (by simp)]
+  exact ⟨rfl, rfl, rfl⟩
+
+/-- **the tie**: `FSM._ctx_event`, as translated from the current source, run on the operations of the C03
+    model for an event arriving from outside (`_fsm_event_active` clear) computes exactly the model's
+    `ctxEvent`: the block afterwards, the ordered log of actions and events (each with the event data it read
+    through `fsm_event_data`), and the value returned / the class of the exception -/
+theorem translated_fsm03_ctx_event_is_model (d : Def) (f : Fsm) (e : EType) (data ctx0 : Data)
+    (log0 : List Action) (ha : f.active = false)
+    (hinit : f.output.isUndef = false → f.state ≠ none) :
+    view (Gen.TrM.ctxEvent (prims d) e data ⟨f, ctx0, log0, false⟩) =
+      ((Fsm.ctxEvent d f e data).1, log0 ++ (Fsm.ctxEvent d f e data).2.2,
+        flowOf (Fsm.ctxEvent d f e data).2.1) := by
+  -- what happens once the first half has passed with target `tgt`, having logged `l`
+  have tail : ∀ (l : List Action) (tgt : State) (loc : Loc EType Data State),
+      loc.v3 = some tgt → loc.v1 = data → check d f e data = (l, .ok tgt) →
+      ({ (ctxEventTry0 (prims d) (⟨{ f with active := true }, data, log0 ++ l, false⟩, loc)).1.1.f
+          with active := false },
+       (ctxEventTry0 (prims d) (⟨{ f with active := true }, data, log0 ++ l, false⟩, loc)).1.1.log,
+       (ctxEventTry0 (prims d) (⟨{ f with active := true }, data, log0 ++ l, false⟩, loc)).2) =
+      ((Fsm.ctxEvent d f e data).1, log0 ++ (Fsm.ctxEvent d f e data).2.2,
+        flowOf (Fsm.ctxEvent d f e data).2.1) := by
+    intro l tgt loc h3 h1 hc
+    cases hn : f.next with
+    | none =>
+      rw [ctxEvent_check_ok d f e data l tgt hc ha hn]
+      obtain ⟨a, b, c⟩ := translated_fsm03_try d f e data tgt (log0 ++ l) loc h3 h1 hn hinit
+      rw [hn] at a b c
+      simp only [a, b, c]
+      simp [List.append_assoc]
+    | some x =>
+      rw [ctxEvent_stale_next d f e data l tgt x hc ha hn]
+      obtain ⟨a, b, c⟩ := translated_fsm03_try_stale d f data x (log0 ++ l) loc hn hinit
+      rw [hn] at a b c
+      simp only [a, b, c]
+      simp [List.append_assoc, flowOf]
+      cases f; simp_all
+  cases e with
+  | goto q =>
+    unfold Gen.TrM.ctxEvent ctxEventBody
+    by_cases hq : q ∈ d.states
+    · have hc : check d f (.goto q) data = ([], .ok q) := by simp [check, hq]
+      have := tail [] q ⟨.goto q, data, data, some q⟩ rfl rfl hc
+      t3simp [view, hq, ha]
+      simpa [view] using this
+    · t3simp [view, Fsm.ctxEvent, nested, check, flowOf, hq, ha]
+  | ev n =>
+    by_cases hev : n ∈ d.events
+    rotate_left
+    · unfold Gen.TrM.ctxEvent ctxEventBody
+      t3simp [view, Fsm.ctxEvent, nested, check, flowOf, hev, ha]
+    · cases hst : f.state with
+      | none =>
+        unfold Gen.TrM.ctxEvent ctxEventBody
+        t3simp [view, Fsm.ctxEvent, nested, check, flowOf, hev, ha, hst]
+      | some cur =>
+        have fin : ∀ (o : Option State), lookup d.toTables n cur = o →
+            ((tget d.trans n (some cur) = some o ∧ True) ∨
+              (tget d.trans n (some cur) = none ∧ (tget d.trans n none).getD none = o)) := by
+          intro o ho
+          unfold lookup at ho
+          cases h1 : tget d.trans n (some cur) with
+          | some x => rw [h1] at ho; exact .inl ⟨by rw [← ho], trivial⟩
+          | none =>
+            rw [h1] at ho
+            refine .inr ⟨rfl, ?_⟩
+            cases h0 : tget d.trans n none with
+            | some x => rw [h0] at ho; simpa using ho
+            | none => rw [h0] at ho; simpa using ho
+        cases ho : lookup d.toTables n cur with
+        | none =>
+          unfold Gen.TrM.ctxEvent ctxEventBody
+          rcases fin _ ho with ⟨h1, h0⟩ | ⟨h1, h0⟩ <;>
+            t3simp [view, Fsm.ctxEvent, nested, check, flowOf, hev, ha, hst, h1, h0, ho]
+        | some q =>
+          cases hu : f.output.isUndef with
+          | true =>
+            have hc : check d f (.ev n) data = ([], .ok q) := by simp [check, hev, hst, ho, hu]
+            have := tail [] q ⟨.ev n, data, data, some q⟩ rfl rfl hc
+            unfold Gen.TrM.ctxEvent ctxEventBody
+            rcases fin _ ho with ⟨h1, h0⟩ | ⟨h1, h0⟩ <;>
+              (t3simp [view, hev, ha, hst, h1, h0, hu]; simpa [view, hst] using this)
+          | false =>
+            by_cases hall : (condsOf d n).all (fun c => (c.2.eval data).truthy) = true
+            · have hc : check d f (.ev n) data = (condLog d n data, .ok q) := by
+                simp [check, hev, hst, ho, hu, hall]
+              have := tail (condLog d n data) q ⟨.ev n, data, data, some q⟩ rfl rfl hc
+              unfold Gen.TrM.ctxEvent ctxEventBody
+              rcases fin _ ho with ⟨h1, h0⟩ | ⟨h1, h0⟩ <;>
+                (t3simp [view, hev, ha, hst, h1, h0, hu, hall]; simpa [view, hst] using this)
+            · unfold Gen.TrM.ctxEvent ctxEventBody
+              rcases fin _ ho with ⟨h1, h0⟩ | ⟨h1, h0⟩ <;>
+                t3simp [view, Fsm.ctxEvent, nested, check, flowOf, hev, ha, hst, h1, h0, ho, hu, hall]
+
+
+/-- the hypotheses of `translated_fsm03_ctx_event_is_model` hold in every state a block can reach: after the
+    initialisation and any sequence of events whatsoever an initialised FSM has a state; and after any sequence
+    that raised no exception `_fsm_event_active` is clear and no request is pending (`flags_released_run`) -/
+theorem translated_fsm03_tie_hypotheses_hold_when_reachable (d : Def) (initdef : State)
+    (evs : List (EType × Data)) :
+    (run d (init d initdef).1 evs).1.output.isUndef = false → (run d (init d initdef).1 evs).1.state ≠ none :=
+  run_hasState d _ evs (ctxEvent_hasState d Fsm.fresh (.goto initdef) [] (by intro h; simp [Fsm.fresh, Val.isUndef] at h))
+
+/-- what the tie gives for the clause "every condition, entry and exit action reads the data of the event that
+    caused it": the log written by the TRANSLATED method (callbacks reading the context variable that the
+    translated `fsm_event_data.set(…)` calls maintain) is accepted by the definition-independent checker
+    `attrRun` -/
+theorem translated_fsm03_actions_read_causing_event (d : Def) (f : Fsm) (e : EType) (data ctx0 : Data)
+    (ha : f.active = false) (hn : f.next = none) (hinit : f.output.isUndef = false → f.state ≠ none) :
+    (attrRun ⟨data, none, none⟩ (Gen.TrM.ctxEvent (prims d) e data ⟨f, ctx0, [], false⟩).1.log).isSome = true := by
+  have h := translated_fsm03_ctx_event_is_model d f e data ctx0 [] ha hinit
+  simp only [view, Prod.mk.injEq, List.nil_append] at h
+  rw [h.2.1]
+  exact action_reads_causing_event d f e data ha hn
+
+/-- non-vacuity: the chained transition A -(go)-> B -(nxt, sent by enter_B)-> C evaluated through the translated
+    method: it agrees with the model, ends in C, and the exit action of the intermediate state B as well as the
+    entry action of C read the data of `nxt` (`d2`), not of `go` (`d1`) -/
+def ex03 : Def :=
+  { states := ["A", "B", "C"], events := ["go", "nxt"],
+    trans := [("go", some "A", some "B"), ("nxt", some "B", some "C")], timed := [],
+    chainLimit := 9, condM := [("nxt", .item "ok")],
+    enterM := [("B", [⟨.ev "nxt", [("ok", .bool true), ("tag", .str "d2")]⟩]), ("C", [])],
+    exitM := ["A", "B", "C"] }
+
+example :
+    (fun r => (r.1, r.2.1, retOf r.2.2)) (view (Gen.TrM.ctxEvent (prims ex03) (.ev "go") [("tag", .str "d1")]
+        ⟨{ state := some "A", output := .str "A" }, [], [], false⟩)) =
+      ({ state := some "C", output := .str "C" },
+       [.exit .meth "A" [("tag", .str "d1")], .onExit "A" (.str "A"), .stopTimer,
+        .setState "B", .enter .meth "B" [("tag", .str "d1")],
+        .send (.ev "nxt") [("ok", .bool true), ("tag", .str "d2")],
+        .cond .meth "nxt" [("ok", .bool true), ("tag", .str "d2")], .sendRet true,
+        .exit .meth "B" [("ok", .bool true), ("tag", .str "d2")],
+        .setState "C", .enter .meth "C" [("ok", .bool true), ("tag", .str "d2")],
+        .output (.str "A") (.str "C"), .onEnter "C" (.str "C")],
+       some true) := by
+  decide +kernel
+
+/-- … and the recursive call itself: `self.event('nxt', …)` while `_fsm_event_active` posts the request -/
+example :
+    (fun r => (r.1, r.2.1, retOf r.2.2))
+      (view (Gen.TrM.ctxEvent (prims ex03) (.ev "nxt") [("ok", .bool true), ("tag", .str "d2")]
+        ⟨{ state := some "B", output := .str "A", active := true }, [("tag", .str "d1")], [], true⟩)) =
+      ({ state := some "B", output := .str "A", active := true,
+         next := some ⟨.ev "nxt", [("ok", .bool true), ("tag", .str "d2")], "C"⟩ },
+       [.cond .meth "nxt" [("ok", .bool true), ("tag", .str "d2")]], some true) := by
+  decide +kernel
+
+end Edzed.TrTie
